@@ -31,7 +31,7 @@ CHUNK = 10
 
 BIND_CTL = frozenset({
     "assign", "aug", "walrus", "unpack-tuple", "import-as", "del", "return", "raise", "yield-recv", "break", "continue",
-    "if-else", "for", "for-else", "for-tuple", "while-walrus", "try-except", "try-finally", "with", "with-tuple", "if-walrus",
+    "if-else", "for", "for-else", "for-tuple", "while-walrus", "try-except", "try-finally", "with", "with-tuple", "with-two", "while-else", "if-walrus",
 })
 
 
